@@ -217,6 +217,35 @@ class Gen:
             return o
         return n
 
+    def t_edges(self):
+        """registers on a derived clock of the SAME clock pin (falling / both edges, own reset kind, polarity and
+        reset pin) next to rising-edge registers, data crossing between the edges in both directions.  Outside
+        the single-clock certificate model (reported as unsupported there): decided by the differential oracle on
+        the real traces only."""
+        c = self.fresh("ck")
+        opts = [self.r.choice(["falling", "falling", "both", ""]), self.r.choice(["", "rst=sync", "rst=async", "rst=none"]),
+                self.r.choice(["", "", "act=low"]), self.r.choice(["", "", f"rstname=r{c}"])]
+        self.emit(("dclk " + c + " " + " ".join(o for o in opts if o)).strip())
+        w = self.r.choice([1, 2])
+        x = self.get_u(w)
+        a = self.fresh("r")
+        self.emit(f"clk {c}")
+        self.emit(f"reg {a} {x}" + (f" rst {''.join(self.r.choice('01') for _ in range(w))}" if self.r.random() < 0.7 else ""))
+        self.emit("endclk")
+        self.vars[a] = ('u', w); self.reg_bits += w
+        b = self.fresh("r")
+        self.emit(f"reg {b} {a}" + (f" rst {''.join(self.r.choice('01') for _ in range(w))}" if self.r.random() < 0.5 else ""))
+        self.vars[b] = ('u', w); self.reg_bits += w
+        if self.r.random() < 0.5:
+            d = self.fresh("r")
+            self.emit(f"clk {c}")
+            self.emit(f"bin {d}x xor {b} {x}")
+            self.emit(f"reg {d} {d}x")
+            self.emit("endclk")
+            self.vars[d] = ('u', w); self.reg_bits += w
+            return d
+        return b
+
     def t_cmpconst(self):
         """comparisons against constants (removeIrrelevantComparisons, ensureNoLiteralComparison): 1-bit
         operands compared with '0' / '1' / X, both operand orders, == and !=, used as condition and as data"""
@@ -507,6 +536,8 @@ def gen_design(seed, did, decorate=None, extra_templates=()):
             g.emit(f"area ar{i} {'entity' if rng.random() < 0.5 else ''}".strip())
             area_open = True
         t = rng.choice(TEMPLATES + list(extra_templates))
+        if t == "t_edges" and rng.random() < 0.6:      # keep most designs inside the single-clock certificate model
+            t = rng.choice(TEMPLATES)
         used.append(t)
         if t == "expr":
             v = g.expr(rng.choice([1, 2, 2, 3, 0] if rng.random() < 0.1 else [1, 2, 2, 3]))
